@@ -305,6 +305,14 @@ def c12(tier):
         grams.chain_family()[::3] + grams.self_nesting() + grams.shift_family(3)[::5]
     for g in shapes:
         cases.append({"id": "shape:" + g["id"], "files": {"g.lox": pcase.render_lox(g), "p.go": bare_go}, "want": ""})
+    # ... and every curated lexer rule-set shape (modes, non-greedy, rules matching the empty string -- modes whose DFA
+    # states are all accepting --, nested cardinalities, keyword-heavy sets)
+    import lcase, lgrams
+    lshapes = list(lgrams.CURATED_GREEDY) + list(lgrams.CURATED_MODES) + lgrams.ng_cases()[::6] + lgrams.ng_cases()[-13:] + \
+        lgrams.nullable_cases() + lgrams.card_nesting_specs()[::2] + lgrams.keyword_specs(random.Random(seed() + 31), 6) + \
+        lgrams.all_mode_action_cases()[::9]
+    for g in json.loads(json.dumps(lshapes)):
+        cases.append({"id": "lshape:" + g["id"], "files": {"g.lox": lcase.render_lox(g), "p.go": bare_go}, "want": ""})
     log("C12: %d inputs (%d configurations)" % (len(cases), ncfg))
     done = pmap(lambda a: run_case(sc, lox, a[0], a[1]), list(enumerate(cases)))
     # a timeout under a loaded machine is not a hang: re-run those alone before believing it
